@@ -34,11 +34,23 @@ pub struct ConsistCase {
     pub res_greedy: bool,
     /// true: `set_pwr_dyn_brake_max()` called on the fresh consist (what `SerdeAPI::init` does on load)
     pub init: bool,
+    /// true: the consist was first built from conventional units only and then given its real composition through
+    /// the public `set_loco_vec` (a consist whose make-up was changed after construction)
+    #[serde(default)]
+    pub remarshal: bool,
     pub path: Vec<CLetter>,
 }
 
 pub fn build_case_consist(c: &ConsistCase) -> Consist {
-    let mut con = build_consist(&ConsistCfg { units: c.units.clone(), res_greedy: c.res_greedy });
+    let mut con = if c.remarshal {
+        let conv_only: Vec<LocoCfg> = c.units.iter().map(|_| consist_unit(0)).collect();
+        let mut con = build_consist(&ConsistCfg { units: conv_only, res_greedy: c.res_greedy });
+        con.set_loco_vec(c.units.iter().map(build_loco).collect());
+        con.set_save_interval(None);
+        con
+    } else {
+        build_consist(&ConsistCfg { units: c.units.clone(), res_greedy: c.res_greedy })
+    };
     if c.init {
         con.set_pwr_dyn_brake_max();
     }
@@ -307,7 +319,7 @@ pub fn consist_families(tier: Tier) -> Vec<Vec<u8>> {
 pub fn rule(which: &str, tier: Tier) -> String {
     let (d, l) = cbounds(tier);
     format!(
-        "E-SEQ on real Consist objects driven like ConsistSimulation::solve_step: compositions = every ordered sequence of length <= 3 over {} unit variants (conv 3.4 MW, conv 1 MW, BEL mid-SOC, BEL in low derating ramp{}) + all {{conv,BEL}}^4 + five representative 4..8-unit consists, x {{Proportional, RESGreedy}} x {{fresh, initialised}}; alphabet = 16 consist-level demands relative to the limits just published ({:?}; B = battery-unit capability) x dt in {{1, 0.25, 4}} s; every sequence of length <= {} (FULL) and every length-{} sequence with <= 1 departure from the default letter (DEV). Oracle ({}) on every accepted step. distinct_nontrivial = distinct behaviour signatures (composition class x policy x traction/regen/regen+dyn/zero x deficit or not x per-unit bound classes).",
+        "E-SEQ on real Consist objects driven like ConsistSimulation::solve_step: compositions = every ordered sequence of length <= 3 over {} unit variants (conv 3.4 MW, conv 1 MW, BEL mid-SOC, BEL in low derating ramp{}) + all {{conv,BEL}}^4 + five representative 4..8-unit consists, x {{Proportional, RESGreedy}} x {{fresh, initialised, re-marshalled (built all-conventional, then given its composition through set_loco_vec)}}; alphabet = 16 consist-level demands relative to the limits just published ({:?}; B = battery-unit capability) x dt in {{1, 0.25, 4}} s; every sequence of length <= {} (FULL) and every length-{} sequence with <= 1 departure from the default letter (DEV). Oracle ({}) on every accepted step. distinct_nontrivial = distinct behaviour signatures (composition class x policy x traction/regen/regen+dyn/zero x deficit or not x per-unit bound classes).",
         if tier.is_thorough() { 6 } else { 4 },
         if tier.is_thorough() { ", BEL in high ramp, BEL at min SOC" } else { "" },
         CDEMANDS,
@@ -382,17 +394,20 @@ pub fn explore(ctx: &mut Ctx, which: &'static str) {
         // large consists: shallower
         let (fd, dl) = if kinds.len() > 4 { (full_d.min(2), dev_l.min(12)) } else { (full_d, dev_l) };
         for res_greedy in [true, false] {
-            for init in [true, false] {
+            for (init, remarshal) in [(true, false), (false, false), (true, true)] {
                 if !init && kinds.len() > 2 {
                     continue; // the uninitialised root only differs in the first braking step
+                }
+                if remarshal && (kinds.len() > 3 || kinds.iter().all(|k| *k < 2)) {
+                    continue; // re-marshalling only matters when battery units join
                 }
                 for first in 0..letters.len() {
                     if !ctx.claim() {
                         continue;
                     }
-                    let base = ConsistCase { units: units.clone(), res_greedy, init, path: vec![] };
+                    let base = ConsistCase { units: units.clone(), res_greedy, init, remarshal, path: vec![] };
                     if first == 0 {
-                        ctx.sample(|| serde_json::json!({"unit_kinds": kinds, "res_greedy": res_greedy, "init": init, "first_letter": letters[0]}));
+                        ctx.sample(|| serde_json::json!({"unit_kinds": kinds, "res_greedy": res_greedy, "init": init, "remarshal": remarshal, "first_letter": letters[0]}));
                     }
                     let root_con = build_case_consist(&base);
                     let root = CNode { snap: csnap(&root_con), con: root_con };
@@ -406,7 +421,7 @@ pub fn explore(ctx: &mut Ctx, which: &'static str) {
                             let info = step_consist(&mut con, Ok(l.demand), DTS[l.dt]);
                             ctx.transition();
                             ctx.depth(path.len() as u64);
-                            let mk_case = |path: &[usize]| ConsistCase { units: units.clone(), res_greedy, init, path: path.iter().map(|&i| letters[i]).collect() };
+                            let mk_case = |path: &[usize]| ConsistCase { units: units.clone(), res_greedy, init, remarshal, path: path.iter().map(|&i| letters[i]).collect() };
                             if info.panicked {
                                 // a panic is neither an accepted step nor an error value
                                 let key = format!("panic@consist-step:{}", if res_greedy { "RESGreedy" } else { "Proportional" });
